@@ -308,7 +308,7 @@ def doc_cases(draw):
     t = base
     for i in range(draw(st.integers(1, 4))):
         # aim connection times at period boundaries
-        conn = t + draw(st.one_of(st.integers(0, 4 * P), st.sampled_from([0, P - (t % P), P - (t % P) - 1, P - (t % P) + 1])))
+        conn = t + (draw(st.integers(0, 30)) if repeated_hour else draw(st.one_of(st.integers(0, 4 * P), st.sampled_from([0, P - (t % P), P - (t % P) - 1, P - (t % P) + 1]))))
         stay = draw(st.one_of(st.sampled_from([P, 2 * P - 1, 2 * P + 1, 7 * P, 3600 * 5, 86400 * 2] + ([] if fit else [0, 1, 30, P - 1])), st.integers(P if fit else 0, 40 * P)))
         if span_dst:
             stay = draw(st.integers(7800, 6 * 3600))
@@ -346,7 +346,7 @@ def doc_cases(draw):
         "voltage": V,
         "max_power": draw(st.sampled_from([3.3, 6.6, 7.0, 32 * V / 1000, 32 * V / 1000])),
         "max_len": max_len,
-        "tzkind": draw(st.sampled_from(["pytz", "pytz", "zoneinfo", "fixed"])),
+        "tzkind": "zoneinfo" if (repeated_hour and draw(st.integers(0, 3)) > 0) else draw(st.sampled_from(["pytz", "pytz", "zoneinfo", "fixed"])),
         "force_feasible": draw(st.booleans()),
         "battery_params": bp,
         "start_ms": min(start_ms, docs[0]["conn_ms"]),
